@@ -252,14 +252,22 @@ impl Xot {
     /// normal child nodes are appended in the end.
     ///
     /// Returns the node that was appended or, in case of attributes or
-    /// namespaces that already existed, updated.
+    /// namespaces that already existed, updated. If text consolidation
+    /// merged an appended text node into the preceding text node (which
+    /// removes the appended node), the text node that now holds the content
+    /// (the last child of `parent`) is returned instead.
     pub fn any_append(&mut self, parent: Node, child: Node) -> Result<Node, Error> {
         match self.value_type(child) {
             ValueType::Namespace => self.append_namespace_node(parent, child),
             ValueType::Attribute => self.append_attribute_node(parent, child),
             _ => {
                 self.append(parent, child)?;
-                Ok(child)
+                if self.is_removed(child) {
+                    // text consolidation merged the node into the last child
+                    Ok(self.last_child(parent).unwrap_or(child))
+                } else {
+                    Ok(child)
+                }
             }
         }
     }
